@@ -1,7 +1,7 @@
 // C09: per-step stability facts of the recursive views, for every admissible window length (symbolic N).
 // What is proved: pole locations / Jury conditions of the coefficients, exact one-step contraction identities for the homogeneous
-// parts, and that the difference of two runs fed the same input obeys the homogeneous recursion.  The epsilon-N limit statements
-// ("converge geometrically") are consequences of these facts that are not formalised here.
+// parts, and that the difference of two runs fed the same input obeys the homogeneous recursion.  c09_history lifts these to whole
+// histories (distance after a common tail of m values == c^m * initial distance with 0 <= c < 1; bounded input, bounded output).
 
 // ---------- coefficients ----------
 pub proof fn lemma_ss_coeffs(n: nat)
